@@ -44,7 +44,7 @@ fn rlc_pairs(a: &[G1A], b: &[G1A], seed: u64) -> (G1, G1) {
     (x, y)
 }
 
-fn check_grid(c: &GridCase, ctx: &mut CaseCtx) -> Result<(), Failure> {
+pub fn check_grid(c: &GridCase, ctx: &mut CaseCtx) -> Result<(), Failure> {
     let (nv, d) = (c.nv, c.d);
     ctx.nontrivial_if(nv >= 2 && d >= 2);
     ctx.derived = Some(json!({"num_vars": nv, "max_degree": d, "expected_elements": binom(nv + d, d)}));
